@@ -54,8 +54,9 @@ def run(ctx):
                                    % (ctx.cov.get('real_cases', 0), ctx.cov.get('real_timeouts', 0)))
     if ctx.cov.get('real_cases', 0) and ctx.cov.get('real_timeouts', 0) * 2 > ctx.cov.get('real_cases', 0):
         ctx.note_inconclusive('more than half of the real-kernel soak cases timed out (machine overloaded?)')
-    ctx.add_sample('reader history: seed-derived sequence of wait(k)/peek/consume(j)/cancel with k from 1 to 20000 on a keyed '
-                   'peer stream; replay with ./check C07 --replay <file> prints the exact history')
+    for r in res[:4]:
+        for smp in r['samples'][:2]:
+            ctx.add_sample(smp)
     ctx.cov['rule'] = ('one evaluation = one history on the simulated kernel: a reader history of 2..40 operations wait(k) / peek / '
                        'consume(j) / cancel (k in 1..20000, crossing the 4096-byte buffer so it grows and compacts) over a peer stream of '
                        '0..120000 bytes ending in EOF, error or stall, or a writer history of 1..40 reserve/consume(j<=len)/write '
